@@ -215,3 +215,19 @@ class Scoped:
 
     def min_instances(self, rid, minimum):
         return None
+
+
+def borrow(ck, module, m, rid, keep, rids=None, min_kept=1):
+    """Apply a sibling property's rule module to part of the code (see Scoped) as a *bonus* clause of this property: when the sibling's
+    rules cannot be applied to the current shape of their anchors (AnalysisError), this property does not become undecided for
+    that reason - the sibling's own check reports it; the note is kept in the evidence."""
+    from .srcmodel import AnalysisError
+    sc = Scoped(ck, rid, keep, rids)
+    try:
+        module.run(sc, m)
+    except AnalysisError as e:
+        ck.extra.setdefault("notes", []).append(f"shared rules of {module.__name__} {sorted(rids or [])} not applicable to the current code ({str(e)[:160]}); decided by that property's own check")
+        return sc
+    ck.expect(sc.kept >= min_kept, f"expected >= {min_kept} obligations from the shared rules of {module.__name__} {sorted(rids or [])}, got {sc.kept}")
+    return sc
+
